@@ -27,6 +27,7 @@ import (
 	"strconv"
 	"strings"
 	"time"
+	"unicode/utf8"
 
 	"go.uber.org/zap"
 
@@ -496,8 +497,14 @@ func docTokens(d sdoc) ([]byte, []seq.Token) {
 		body += fmt.Sprintf(`,"request_uri":%q`, uris[d.uri%len(uris)])
 	}
 	// a keyword field whose values contain the AggBin key separator and other separators
-	pods := []string{"api|v1", "api|v2", "api", "|", "a|b|c", "x;y", "x:y", "api|", "plain"}
-	body += fmt.Sprintf(`,"k8s_pod":%q`, pods[(d.msg*5+d.uri+int(d.id.RID))%len(pods)])
+	// ... and values with bytes that are not valid UTF-8 (upper-case letters make the tokenizer's lower-casing path run)
+	pods := []string{"api|v1", "api|v2", "api", "|", "a|b|c", "x;y", "x:y", "api|", "plain", "Caf\xe9-A", "Caf\xe8-A", "Z\xff\xfeQ"}
+	pod := pods[(d.msg*5+d.uri+int(d.id.RID))%len(pods)]
+	if utf8.ValidString(pod) {
+		body += fmt.Sprintf(`,"k8s_pod":%q`, pod)
+	} else {
+		body += `,"k8s_pod":"` + pod + `"` // raw bytes inside the JSON string
+	}
 	body += "}"
 	metas, err := bulk.VerifIndexDoc(seq.TestMapping, consts.DefaultMaxTokenSize, false, false, []byte(body))
 	if err != nil || len(metas) == 0 {
@@ -624,11 +631,25 @@ func sysChild(phase string) {
 		return
 	}
 	fm.Start()
+	// rel=1: document times and the request window are given in MINUTES BEFORE the moment the case was built
+	// (sealed fractions of such documents carry a per-minute MIDs distribution)
+	relMID := func(x uint64) uint64 { return x }
+	if m["rel"] == "1" {
+		basePath := filepath.Join(dir, "base")
+		var base uint64
+		if raw, err := os.ReadFile(basePath); err == nil {
+			base = atou(strings.TrimSpace(string(raw)))
+		} else {
+			base = uint64(time.Now().UnixMilli())
+			os.WriteFile(basePath, []byte(fmt.Sprint(base)), 0o644)
+		}
+		relMID = func(x uint64) uint64 { return base - x*60000 }
+	}
 	if phase == "build" {
 		var docs []sdoc
 		for _, e := range splitList(m["docs"], ",") {
 			p := strings.Split(e, ":")
-			d := sdoc{id: seq.ID{MID: seq.MID(atou(p[0])), RID: seq.RID(atou(p[1]))}, svc: p[2], val: p[3]}
+			d := sdoc{id: seq.ID{MID: seq.MID(relMID(atou(p[0]))), RID: seq.RID(atou(p[1]))}, svc: p[2], val: p[3]}
 			if len(p) >= 6 {
 				d.msg, d.uri = atoi(p[4]), atoi(p[5])
 			}
@@ -659,6 +680,11 @@ func sysChild(phase string) {
 	// the fractions that exist now are the ones the search was (or is about to be) started on; `late=` documents
 	// arrive in a NEW fraction between the start of the search and the restart: they must not show up in the result
 	fracsAtStart := fm.GetAllFracs()
+	if phase == "resume" && m["sealbefore"] == "1" {
+		// the fraction that was active when the search started is sealed before the search gets to it
+		// (rotation while the request waits for a worker, or the store sealing leftovers at start-up)
+		fm.SealForcedForTests()
+	}
 	if phase == "resume" && m["late"] != "" && m["late"] != "-" {
 		var docs []sdoc
 		for _, e := range splitList(m["docs"], ",") {
@@ -686,7 +712,7 @@ func sysChild(phase string) {
 		fm.WaitIdle()
 	}
 	query := queryOf(m)
-	params := processor.SearchParams{AggQ: aggQuery(m["agg"]), HistInterval: atou(m["hi"]), From: seq.MID(atou(m["from"])), To: seq.MID(atou(m["to"])),
+	params := processor.SearchParams{AggQ: aggQuery(m["agg"]), HistInterval: atou(m["hi"]), From: seq.MID(min(relMID(atou(m["from"])), relMID(atou(m["to"])))), To: seq.MID(max(relMID(atou(m["from"])), relMID(atou(m["to"])))),
 		Limit: math.MaxInt32, WithTotal: false, Order: order(m["desc"] == "1")}
 	parallelism := 2
 	if queued {
@@ -1216,6 +1242,22 @@ func genSys(g gen, o vh.Opts) []string {
 				strings.Join(docs, ","), strings.Join(lay, ";"), b(g.r.Bool()), vh.Hex([]byte(query)), b(g.r.Bool()),
 				[]int{0, 1, 7}[g.r.Intn(3)], []string{"none", "count", "pods"}[g.r.Intn(3)], from, to))
 		}
+		if g.r.Chance(1, 6) {
+			// the search starts while the fraction is ACTIVE, its window lies in a gap of the fraction's document
+			// times; the fraction is sealed (distribution built) before the resumed search gets to it
+			ages := []int{g.r.Range(400, 600), g.r.Range(200, 300), g.r.Range(20, 60)}
+			var rd []string
+			for i, a := range ages {
+				rd = append(rd, fmt.Sprintf("%d:%d:a:%d:1:0", a, i, g.r.Intn(50)))
+			}
+			gapFrom, gapTo := ages[1]-20, ages[2]+30 // strictly between the two newest documents
+			if g.r.Chance(1, 3) {
+				gapFrom = ages[0] + 10 // or a window that does contain documents
+			}
+			lines = append(lines, fmt.Sprintf("async rel=1 sealbefore=1 docs=%s layout=0,1,2 lastActive=1 late=- qx=%s desc=%s hi=%d agg=%s from=%d to=%d crash=%d at=%s",
+				strings.Join(rd, ","), vh.Hex([]byte(seq.TokenAll+":*")), b(g.r.Bool()), []int{0, 60000}[g.r.Intn(2)], []string{"none", "count"}[g.r.Intn(2)],
+				gapFrom, gapTo, g.r.Range(1, 2), []string{"written", "before-rename"}[g.r.Intn(2)]))
+		}
 		late := "-"
 		if crash > 0 && g.r.Chance(1, 2) {
 			late = fmt.Sprintf("%d,%d,%d", g.r.Intn(len(docs)), g.r.Intn(len(docs)), g.r.Intn(len(docs)))
@@ -1310,7 +1352,7 @@ func runSys(lines []string, orc *vh.Oracle, rep *vh.Report, o vh.Opts) {
 		os.RemoveAll(dir)
 		qfield := strings.SplitN(strings.TrimPrefix(queryOf(m), "not "), ":", 2)[0]
 		orc.Case(line, crashed && k > 1, "crashed="+b(crashed), "agg="+m["agg"], fmt.Sprintf("fracs=%d", k), "hist="+b(m["hi"] != "0"), "dup="+b(hasDupIdx(m["layout"])),
-			"late-fraction="+b(crashed && m["late"] != "" && m["late"] != "-"), "queued="+b(m["queued"] == "1"), "query-field="+qfield, "phrase="+b(strings.Contains(queryOf(m), " ") && strings.Contains(queryOf(m), "\"")))
+			"late-fraction="+b(crashed && m["late"] != "" && m["late"] != "-"), "queued="+b(m["queued"] == "1"), "sealed-before-resume="+b(m["sealbefore"] == "1"), "query-field="+qfield, "phrase="+b(strings.Contains(queryOf(m), " ") && strings.Contains(queryOf(m), "\"")))
 		switch {
 		case out.Err == "not-found" && crashed && m["queued"] == "1":
 			rep.Violate(vh.Violation{Site: "fracmanager/async_searcher.go:StartSearch", Class: "acked-search-lost-after-restart",
@@ -1357,6 +1399,8 @@ func lastLine(s string) string {
 
 func classOfDeath(stderr string) string {
 	switch {
+	case strings.Contains(stderr, "processFrac") && strings.Contains(stderr, "nil pointer"):
+		return "recorded-fraction-not-found-nil-deref"
 	case strings.Contains(stderr, "can't encode async search request"):
 		return "qpr-not-json-encodable"
 	case strings.Contains(stderr, "nil map"):
